@@ -34,7 +34,7 @@ def run(ctx):
             {"cfg": "Ctxt_thorough.cfg", "workers": 10, "replay": False},
             {"cfg": "Ctxt_thorough_r1.cfg", "workers": 6},
             {"cfg": "Ctxt_thorough_r2.cfg", "workers": 6},
-            {"cfg": "Ctxt_thorough_sim.cfg", "workers": 4, "simulate": (30000, 14)},
+            {"cfg": "Ctxt_thorough_sim.cfg", "workers": 4, "simulate": (20000, 14)},
         ]
     span_common.run_configs(ctx, "MCCtxt", "c03_ctxt", configs, ACTIONS, "C03",
                             harness_args=stores_arg)
